@@ -85,6 +85,9 @@ def check_noops(rel, what, env=None, pick=0):
         ("sorted([])", lambda: rel.sorted([])),
         ("transferred_to(own engine)", lambda: rel.transferred_to(rel.engine)),
     ]
+    if hasattr(rel.engine, "handle"):
+        # a second handle on the same backend: an engine that is equal to the relation's, but another object
+        calls.append(("transferred_to(an equal, but not identical, engine object)", lambda: rel.transferred_to(rel.engine.handle())))
     if env is not None:
         # the same no-op requests with preferred-engine options: there is nothing to insert anywhere
         pe = env.engines[pick % 3]
@@ -182,7 +185,14 @@ def run_case(case, stats):
     kind, body = case
     if kind == "prog":
         universe, leaves, prog = body
-        env = Env(leaves)
+        if int(codec.digest(case)[:2], 16) % 3 == 0:
+            # engines with value equality (two handles on one backend are equal, not identical)
+            from vf.core.env import handle_engine_classes
+
+            hs, hi = handle_engine_classes()
+            env = Env(leaves, sql_engine_cls=hs, iter_engine_cls=hi)
+        else:
+            env = Env(leaves)
         try:
             rels = {}
             try:
